@@ -3,6 +3,7 @@ import B6.Model.VM
 import B6.Spec.Query
 import B6.Lemmas.Simplify
 import B6.Props.C21
+import B6.Lemmas.InterpFuel
 /-!
 C22 — simplification never changes a program's result.
 
@@ -20,6 +21,8 @@ argument tree afterwards, and `Evaluate` of both programs).
   `{f -> pair (({-> f}) 5 6) 1}` ↦ `{f -> pair (f 5 6) 1}`): corpus witnesses of the harness.
 * `evalpair_reduces_to_interp` (proved): on C21's fragment `Expr.regSafe` comparing the two VM outcomes is
   comparing the two interpreter meanings (the tie between the run's oracle and the specification).
+* `interp_mono`, `beta0_context`, `build_query_context` (proved): fuel monotonicity, and the two
+  value-preserving rewrite steps lifted from the root to any argument position outside lambdas.
 * `simplify_preserves_statement`: the semantic half (the simplified program has the interpreter's
   meaning of the original) for programs in which no lambda parameter is named like a global function.
   Not proved in general (it needs observational equivalence of function values: `{a -> f a}` and `f`
@@ -175,24 +178,20 @@ def simplify_preserves_statement : Prop :=
              = (interp fuel e).map (fun v => (Simplify.canonVal v).obs)
 
 /-- **evalpair_reduces_to_interp.** What the correspondence run compares is `Evaluate e` against
-`Evaluate (Simplify e)`, both on the VM.  For two programs in C21's fragment `Expr.regSafe` (with the
-validated code layout; both are evaluated by the drivers on every program) that comparison is the
+`Evaluate (Simplify e)`, both on the VM.  For two programs in C21's fragment `Expr.regSafe` that comparison is the
 comparison of the interpreter's meanings — C21 `vm_lambda_partial` on both sides.  Outside the
 fragment a VM difference between programs the language identifies is C21's finding (class
 `vm-closure-registers` of the C22 driver = `!regSafe` of either tree). -/
-theorem evalpair_reduces_to_interp (fuel : Nat) (e s : Expr) (he : e.regSafe = true) (hs : s.regSafe = true)
-    (hle : VM.layoutOK e = true) (hls : VM.layoutOK s = true) :
+theorem evalpair_reduces_to_interp (fuel : Nat) (e s : Expr) (he : e.regSafe = true) (hs : s.regSafe = true) :
     ((VM.run fuel e).map Val.obs = (VM.run fuel s).map Val.obs) ↔
       ((interp fuel e).map Val.obs = (interp fuel s).map Val.obs) := by
-  rw [B6.Props.C21.vm_lambda_partial fuel e he hle, B6.Props.C21.vm_lambda_partial fuel s hs hls]
+  rw [B6.Props.C21.vm_lambda_partial fuel e he, B6.Props.C21.vm_lambda_partial fuel s hs]
 
 /-- non-vacuity: an η-shaped lambda and its simplification are both in the fragment -/
 example : simplify (c (.sym "call1") [.lam ["a"] (c (.sym "first") [.sym "a"]), c (.sym "pair") [i 1, i 2]])
       = some (c (.sym "call1") [.sym "first", c (.sym "pair") [i 1, i 2]]) ∧
     Expr.regSafe (c (.sym "call1") [.lam ["a"] (c (.sym "first") [.sym "a"]), c (.sym "pair") [i 1, i 2]]) = true ∧
-    Expr.regSafe (c (.sym "call1") [.sym "first", c (.sym "pair") [i 1, i 2]]) = true ∧
-    VM.layoutOK (c (.sym "call1") [.lam ["a"] (c (.sym "first") [.sym "a"]), c (.sym "pair") [i 1, i 2]]) = true ∧
-    VM.layoutOK (c (.sym "call1") [.sym "first", c (.sym "pair") [i 1, i 2]]) = true := ⟨rfl, rfl, rfl, rfl, rfl⟩
+    Expr.regSafe (c (.sym "call1") [.sym "first", c (.sym "pair") [i 1, i 2]]) = true := ⟨rfl, rfl, rfl⟩
 
 /-- `({-> b})` ↦ `b`: evaluating the nullary call with one more unit of fuel is evaluating the body -/
 theorem beta0_step (fuel : Nat) (env : Env) (b : Expr) (p : Bool) :
@@ -220,6 +219,45 @@ theorem build_query_step (fuel : Nat) (env : Env) (a b : Query) (p : Bool) :
       = .ok (.query (.inter [a, b])) ∧
     evalWith (applyFn (fuel + 1)) env (.call (.sym "or") [.lit (.query a), .lit (.query b)] p)
       = .ok (.query (.union [a, b])) := ⟨rfl, rfl⟩
+
+/-! ### fuel monotonicity; the value-preserving steps under argument contexts -/
+
+open B6.Lemmas.InterpFuel in
+/-- **interp_mono.** An outcome of the interpreter other than "out of fuel" is the outcome for every
+larger fuel. -/
+theorem interp_mono (fuel k : Nat) (e : Expr) (h : interp fuel e ≠ .error .fuel) :
+    interp (fuel + k) e = interp fuel e := B6.Lemmas.InterpFuel.interp_mono fuel k e h
+
+open B6.Lemmas.InterpFuel in
+/-- **beta0_context.** `({-> b})` ↦ `b` at any argument position of a program (any depth of calls, not
+under a lambda): whenever the original program has an outcome with some fuel, the rewritten program
+has the same outcome with the same fuel (`beta0_step` lifted through contexts by `interp_mono`). -/
+theorem beta0_context (c : ArgCtx) (b : Expr) (p : Bool) (fuel : Nat)
+    (h : interp fuel (c.fill (.call (.lam [] b) [] p)) ≠ .error .fuel) :
+    interp fuel (c.fill b) = interp fuel (c.fill (.call (.lam [] b) [] p)) :=
+  interp_refines ((beta0_refines b p).fill c) ((beta0_statics b p).fill c) fuel h
+
+open B6.Lemmas.InterpFuel in
+/-- **build_query_context.** `and [a] [b]` ↦ `[a & b]`, `or [a] [b]` ↦ `[a | b]` (the literal before
+`simplifyQuery`, whose effect is `simplify_query_denote`) at any argument position. -/
+theorem build_query_context (c : ArgCtx) (a b : Query) (p : Bool) (fuel : Nat) :
+    (interp fuel (c.fill (.call (.sym "and") [.lit (.query a), .lit (.query b)] p)) ≠ .error .fuel →
+      interp fuel (c.fill (.lit (.query (.inter [a, b]))))
+        = interp fuel (c.fill (.call (.sym "and") [.lit (.query a), .lit (.query b)] p))) ∧
+    (interp fuel (c.fill (.call (.sym "or") [.lit (.query a), .lit (.query b)] p)) ≠ .error .fuel →
+      interp fuel (c.fill (.lit (.query (.union [a, b]))))
+        = interp fuel (c.fill (.call (.sym "or") [.lit (.query a), .lit (.query b)] p))) :=
+  ⟨interp_refines ((build_and_refines a b p).fill c) ((build_and_statics a b p).fill c) fuel,
+   interp_refines ((build_or_refines a b p).fill c) ((build_or_statics a b p).fill c) fuel⟩
+
+open B6.Lemmas.InterpFuel in
+/-- non-vacuity: `pair 1 (sub (({-> add 1 2})) 1)` -/
+example :
+    (ArgCtx.arg (.sym "pair") [i 1] (.arg (.sym "sub") [] .hole [i 1] false) [] false).fill
+        (c (.lam [] (c (.sym "add") [i 1, i 2])) [])
+      = c (.sym "pair") [i 1, c (.sym "sub") [c (.lam [] (c (.sym "add") [i 1, i 2])) [], i 1]] ∧
+    interp 5 (c (.sym "pair") [i 1, c (.sym "sub") [c (.lam [] (c (.sym "add") [i 1, i 2])) [], i 1]])
+      = .ok (.pair (.int 1) (.int 2)) := ⟨rfl, rfl⟩
 
 section variadic
 open B6.Model.Simplify
